@@ -5,8 +5,8 @@ with concrete bounds [lo, hi] (Fractions, lo >= 0) used to pick the candidate
 binades.  Every operation computes the exact real result r and introduces a
 fresh x constrained by the exact characterisation of "x is a double nearest to
 r":   exists e, n:  x = n*2^(e-52),  2^52 <= n <= 2^53,  |x - r| <= 2^(e-53)
-(ties may go either way, zero is exact).  This over-approximates
-round-to-nearest-even on normal numbers, so `unsat` is sound for the real
+(zero is exact; with TIES_EVEN an exact tie keeps the even significand, otherwise it may
+go either way).  Either way this over-approximates round-to-nearest-even on normal numbers, so `unsat` is sound for the real
 semantics; `sat` is a candidate that must replay natively.
 
 Only non-negative values are supported (instants since 1970, durations >= 0);
@@ -21,6 +21,8 @@ from . import engine as E
 from .engine import Unsupported
 from . import shadows as S
 
+TIES_EVEN = False  # False: an exact tie may round either way (coarser, sound over-approximation, much cheaper for z3)
+USE_MS_FLOOR_LEMMA = True  # see SInt.__truediv__; C13 proves the lemma with this switched off
 IEEE = False  # module switch: when True, int/int true division, timestamp(), total_seconds() produce SFloat
 
 
@@ -57,6 +59,7 @@ def RN(r, lo, hi, minpos=None, name="fp", grid=None):
         return SFloat(Q(0), 0, 0)
     x = z3.Real(E.ENG.fresh_name(name))
     n = z3.Int(E.ENG.fresh_name(name + "_n"))
+    m2 = z3.Int(E.ENG.fresh_name(name + "_h"))  # n == 2*m2 witnesses an even significand (linear, no mod)
     cases = []
     pos_lo = lo
     if lo == 0:
@@ -78,7 +81,10 @@ def RN(r, lo, hi, minpos=None, name="fp", grid=None):
         return SFloat(x, max(Fraction(0), lo - half), hi + half, None)
     for e in range(e_lo, e_hi + 1):
         ulp = Fraction(2) ** (e - 52)
-        cases.append(z3.And(x == z3.ToReal(n) * Q(ulp), n >= 2**52, n <= 2**53, x - r <= Q(ulp / 2), r - x <= Q(ulp / 2)))
+        half = Q(ulp / 2)
+        # round to nearest, ties to even (an exact tie keeps the even significand)
+        cases.append(z3.And(x == z3.ToReal(n) * Q(ulp), n >= 2**52, n <= 2**53, x - r <= half, r - x <= half,
+                            z3.Or(z3.And(x - r < half, r - x < half), n == 2 * m2) if TIES_EVEN else True))
     STATS["max_cases"] = max(STATS["max_cases"], len(cases))
     # outside the window derived from the bounds: unconstrained (sound over-approximation)
     # (rounding is monotone, so below the window the result stays in [0, 2^e_lo], above it stays above)
@@ -300,7 +306,9 @@ def int_div_const(n_term, d):
 def round_half_even_any(g):
     """nearest integer to SFloat g; ties may go either way (over-approximation of half-even)"""
     n = z3.Int(E.ENG.fresh_name("rhe"))
-    E.ENG.assume(z3.And(z3.ToReal(n) - g.r <= Q(Fraction(1, 2)), g.r - z3.ToReal(n) <= Q(Fraction(1, 2))))
+    m2 = z3.Int(E.ENG.fresh_name("rhe_h"))
+    h = Q(Fraction(1, 2))
+    E.ENG.assume(z3.And(z3.ToReal(n) - g.r <= h, g.r - z3.ToReal(n) <= h, z3.Or(z3.And(z3.ToReal(n) - g.r < h, g.r - z3.ToReal(n) < h), n == 2 * m2) if TIES_EVEN else True))
     return n
 
 
